@@ -81,6 +81,8 @@ def run_case(case):
         return association_case(case)
     if case.get("op") == "derived":
         return derived_case(case)
+    if case.get("op") == "enumtable":
+        return enum_table_case(case)
     classes = response_classes()
     if case["cls"] not in classes:
         return [("C06:response-class-missing", "%s is no longer a response of any command" % case["cls"])]
@@ -422,6 +424,54 @@ def _derived_shard(_):
     return res
 
 
+ENUM_TABLES = {
+    # codes the standard defines for enumerated answers: IEC 62386-209 table 12, -103 table 8
+    "QueryAssignedColourResponse": {0: "not_assigned", 1: "red", 2: "green", 3: "blue", 4: "white", 5: "amber", 6: "freecolour"},
+    "QueryEventSchemeResponse": {0: "instance", 1: "device", 2: "device_instance", 3: "device_group", 4: "instance_group"},
+}
+
+
+def enum_table_case(case):
+    """case: {"op": "enumtable", "cls": key, "v": code}: defined codes give the member of that name and number,
+    undefined ones no member."""
+    command, frame, exc = _load()
+    r_cls = response_classes()[case["cls"]][0]
+    v = case["v"]
+    table = ENUM_TABLES[r_cls.__name__]
+    try:
+        val = r_cls(frame.BackwardFrame(v)).value
+    except ValueError:
+        val = "ValueError"
+    except Exception as e:  # noqa
+        val = "raised %r" % (e,)
+    if v in table:
+        ok = isinstance(val, r_cls.enumerator) and val.value == v and val.name == table[v]
+    else:
+        ok = not isinstance(val, (r_cls.enumerator, int))
+    if ok:
+        return []
+    return [("C06:enum-table:" + r_cls.__name__, "%s answered %d: value %r, the standard's table says %s"
+             % (r_cls.__name__, v, val, table.get(v, "undefined")))]
+
+
+def _enum_shard(_):
+    res = Result()
+    res.exhaustive = True
+    have = {r.__name__: key for key, (r, users) in response_classes().items()}
+    for name in sorted(ENUM_TABLES):
+        if name not in have:
+            res.violation("C06:response-class-missing", {"op": "enumtable", "cls": name}, "%s is gone" % name)
+            continue
+        for v in range(256):
+            case = {"op": "enumtable", "cls": have[name], "v": v}
+            res.count()
+            res.nontrivial()
+            for sig, msg in enum_table_case(case):
+                res.violation(sig, case, msg)
+        res.label("enum-table:" + name, 256)
+    return res
+
+
 def _assoc_shard(_):
     res = Result()
     res.exhaustive = True
@@ -443,6 +493,8 @@ def _shard(arg):
         return _assoc_shard(arg)
     if arg == "derived":
         return _derived_shard(arg)
+    if arg == "enumtable":
+        return _enum_shard(arg)
     name = arg
     res = Result()
     res.exhaustive = True
@@ -471,5 +523,5 @@ def _shard(arg):
 
 def run(ctx):
     names = list(response_classes())
-    ctx.pmap(_shard, names + [None, "derived"])
+    ctx.pmap(_shard, names + [None, "derived", "enumtable"])
     ctx.result.extra["response_classes"] = len(names)
